@@ -12,6 +12,7 @@ from lib import datasheet as ds
 from lib.runner import Collector, hyp_search, digest
 
 ID = "C16"
+REQUIRED_CLASSES = ['spd DDR3', 'spd DDR4', 'tight']      # classes that must occur in every run (else harness error: vacuous generator)
 LEVEL = "exploration"
 RULE = ("case = (module class, speedgrade, rate, fine-refresh mode, clk_freq); grid over clk plus Hypothesis off-grid clocks; "
         "non-trivial = for some ns-valued timing the rounding decision is tight (ns/period + (n-1)/n within 1e-3 of an integer, "
